@@ -196,9 +196,7 @@ void op_binary(const Step& s) {
 			std::set<long> sa = namespace_states(false, &c.h[j]), sb = observed_states(c.h[j]); bool dis = true; for (long q : sb) if (sa.count(q)) dis = false;
 			if (!dis && !(c.h[i].origin == c.h[j].origin)) { long off = (sa.empty() ? 0 : *sa.rbegin()) + 1; VATA::AutBase::StateToStateMap sm; VATA::AutBase::StateToStateTranslWeak tr(sm, [off](const StateType& q) { return q + StateType(off); }); shifted.reset(new TD(c.h[j].td->ReindexStates(tr))); rhs = shifted.get(); }
 		}
-		if (getenv("VSIM_DEBUG")) { VATA::Serialization::TimbukSerializer ser; FILE* f = fopen("/tmp/vsim-debug.txt", "a"); fprintf(f, "LHS:\n%s\nRHS(shifted=%d):\n%s\n", c.h[i].td->DumpToString(ser).c_str(), int(bool(shifted)), rhs->DumpToString(ser).c_str()); fclose(f); }
 		TD r = kind == 0 ? (with_maps ? TD::Union(*c.h[i].td, *rhs, &m1, &m2) : TD::Union(*c.h[i].td, *rhs)) : (kind == 1 ? TD::UnionDisjointStates(*c.h[i].td, *rhs) : (with_maps ? TD::Intersection(*c.h[i].td, *rhs, &pm) : TD::Intersection(*c.h[i].td, *rhs)));
-		if (getenv("VSIM_DEBUG")) { VATA::Serialization::TimbukSerializer ser; FILE* f = fopen("/tmp/vsim-debug.txt", "a"); fprintf(f, "RESULT:\n%s\nLHS after:\n%s\n", r.DumpToString(ser).c_str(), c.h[i].td->DumpToString(ser).c_str()); fclose(f); }
 		api_end(); ok = result_model(r, got, site); if (ok) add_td(c, std::move(r), got);
 	}
 	if (!ok) return;
